@@ -5,3 +5,6 @@
         exists|k: int| 0 <= k <= old(self).items@.len() && #[trigger] old(w).sealed.skip(k) == final(w).sealed
             && final(w).removed == old(w).removed + Seq::new(k as nat, |i: int| old(w).sealed[i].path), // [C10:oldest-first] [C10:only-evictable-unlinked]
         *final(w) == (World { sealed: final(w).sealed, removed: final(w).removed, ..*old(w) }), // [C10:frame]
+        // eviction is complete: the manager stops only at a journal that is still needed (C10: once everything
+        // is flushed or deleted the number of journal files returns to one)
+        r is Ok && final(w).sealed.len() > 0 ==> !evictable(final(w).sealed[0], *final(w)), // [C10:reclaims-every-reclaimable-journal] [C12:deleted-keyspace-does-not-pin-journals]
